@@ -2144,7 +2144,8 @@ func TestVerif_C12(t *testing.T) {
 		},
 		Floors: []string{"dfs_configurations_exhausted", "wins", "lost_requests", "lost_replies", "restarts", "restarts_with_pending_commit", "proposals_to_newer_member", "vote_ties_by_host", "commit_failures", "cluster_trials_completed"},
 		ExtraCov: func(p *vfPart, cov map[string]interface{}) {
-			cov["exhaustive"] = map[string]interface{}{"subspace": "3 members x 2 single-round candidates, all delivery orders of requests and replies, no faults", "configurations": p.Counters["dfs_configurations"], "exhausted": p.Counters["dfs_configurations_exhausted"], "executions": p.Counters["dfs_executions"], "distinct_global_states": p.Counters["dfs_distinct_global_states"]}
+			cov["exhaustive"] = false // the PRNG schedules are a sample; only the sub-space below is enumerated completely
+			cov["exhaustively_enumerated_subspace"] = map[string]interface{}{"subspace": "3 members x 2 single-round candidates, all delivery orders of requests and replies, no faults", "configurations": p.Counters["dfs_configurations"], "exhausted": p.Counters["dfs_configurations_exhausted"], "executions": p.Counters["dfs_executions"], "distinct_global_states": p.Counters["dfs_distinct_global_states"]}
 			cov["distinct_schedules"] = len(p.Distinct["schedules"])
 			cov["distinct_state_vectors"] = len(p.Distinct["state_vectors"])
 		}}
